@@ -634,6 +634,16 @@ for k in (0, 1, 3):
                     ref.eval(); ref.compute_loss(d, n_paths=7, n_times=2, enable_grad=False)
             for a, b in zip(model.parameters(), ref_model.parameters()):
                 if not torch.allclose(a, b, atol=1e-7): bad.append((k, validation, pre_grad, "parameters differ from the explicit loop"))
+# the model was put in eval mode before being wrapped (hedger.training is True, model.training False): training batches still run in training mode
+class ModeNet(torch.nn.Module):
+    def __init__(self): super().__init__(); self.lin = torch.nn.Linear(2, 1); self.seen = []
+    def forward(self, x): self.seen.append(self.training); return self.lin(x)
+torch.manual_seed(41)
+d = EuropeanOption(BrownianStock(dt=0.01), maturity=0.04)
+net = ModeNet(); net.eval()
+hedger = pnn.Hedger(net, ["log_moneyness", "time_to_maturity"])
+hedger.fit(d, n_epochs=2, n_paths=5, optimizer=torch.optim.SGD, verbose=False, validation=False)
+if not all(net.seen[-2:]) or not any(net.seen): bad.append(("model put in eval mode before fit", "training batches processed with model.training = %s" % net.seen[-4:]))
 # a larger number of validation evaluations per epoch
 torch.manual_seed(31)
 d = EuropeanOption(BrownianStock(dt=0.01), maturity=0.04)
@@ -942,7 +952,7 @@ def _replay_ntimes():
 ENSEMBLE_REPLAY = '''
 from pfhedge._utils.operations import ensemble_mean
 bad = []
-for n in (1, 2, 3, 4, 5, 7, 8, 9, 16, 17, 33):
+for n in (1, 2, 3, 4, 5, 7, 8, 9, 16, 17, 33, 64, 65, 130):
     calls = []
     def f(a, key=None):
         calls.append((a, key)); return T([float(len(calls)), 2.0 * len(calls)])
@@ -957,7 +967,7 @@ result = {"got": [str(b) for b in bad][:8], "ref": []}
 def _replay_ensemble():
     r = real_exec(ENSEMBLE_REPLAY, {}, timeout=120)
     ok = r.get('ok') and r['result']['got'] == []
-    return {'real': r, 'confirmed': not ok, 'note': 'replay: real ensemble_mean for n_times in {1,...,5,7,8,9,16,17,33}: call count, arguments, value'}
+    return {'real': r, 'confirmed': not ok, 'note': 'replay: real ensemble_mean for n_times in {1,...,5,7,8,9,16,17,33,64,65,130}: call count, arguments, value'}
 
 
 def c15_obligations(seed, tier='quick'):
